@@ -183,7 +183,7 @@ class Scanner:
         if depth > 3 or not fn.blocks: return False
         a = s.fa(fn)
         r = False
-        if not a.restores():
+        if not s.restore_sites(fn):
             tk = list(a.takes())
             for c in fn.ins:
                 if c.op in ('call', 'invoke') and isinstance(c.callee, str) and c.callee != fn.name:
